@@ -872,8 +872,9 @@ fn run_program(c: &mut Ctx, p: &Program, cfgs: &[Cfg]) {
 /// Configurations with object streams produce a 1 000 001-entry cross-reference section (the
 /// writer numbers its object stream 1000000), which costs the library reader 0.3–3 s per file,
 /// so they are run for a sub-family of the programs only (stated in the evidence):
-///   quick:    no deviation in size/rotation/metadata, and either one page with a body of ≤ 1
-///             call or two pages with the same body of ≤ 1 call;
+///   quick:    no deviation in size/rotation/metadata, and either one page whose body is empty or
+///             one of {Helvetica text, gray image, text annotation, outline entry}, or two pages
+///             with one Helvetica text each;
 ///   thorough: no deviation, and one page with a body of ≤ 2 calls, or two pages with bodies of
 ///             ≤ 1 call, or three pages with the same body of ≤ 1 call.
 /// The 8 configurations without object streams are run for every program.
@@ -885,10 +886,18 @@ pub(crate) fn configs_for(c: &mut Ctx, p: &Program, thorough: bool) -> Vec<Cfg> 
     let all = Cfg::all();
     let plain = !p.metadata && p.pages.iter().all(|pg| pg.size == 0 && pg.rot == 0);
     let same = p.pages.windows(2).all(|w| w[0].body == w[1].body);
+    // quick tier: a handful of representative programs only (one per kind of object the calls add)
+    let quick_body = |b: &[prog::Call]| b.is_empty() || (b.len() == 1 && matches!(b[0], prog::Call::HelvText | prog::Call::GrayImage | prog::Call::TextAnnot | prog::Call::OutlineEntry));
     let eligible = plain
         && match (p.pages.len(), p.max_body()) {
-            (1, l) => l <= if thorough { 2 } else { 1 },
-            (2, l) => l <= 1 && (thorough || same),
+            (1, l) => {
+                if thorough {
+                    l <= 2
+                } else {
+                    quick_body(&p.pages[0].body)
+                }
+            }
+            (2, l) => l <= 1 && (thorough || (same && p.pages[0].body == [prog::Call::HelvText])),
             (3, l) => l <= 1 && thorough && same,
             _ => false,
         };
@@ -933,7 +942,7 @@ pub fn run(rep: &mut Report) {
     rep.assume("annotations, outline entries and metadata are part of the programs (they add objects) but their own read-back is not compared: the property lists page count, boxes, rotation, operators and images");
     let dev = 1;
     let single_len = if thorough { 4 } else { 3 };
-    rep.note("objstm_family", json!("object-stream configurations (quick: header version 1.7 only) are run for programs without size/rotation/metadata deviation that have one page and a body ≤ 1 (thorough ≤ 2), two pages with equal bodies ≤ 1 (thorough: any bodies ≤ 1), thorough also three pages with equal bodies ≤ 1; reason: the writer numbers its object stream 1000000, every such file carries a 1 000 001-entry cross-reference section (20 MB as a table) and costs the library reader 0.3–3 s"));
+    rep.note("objstm_family", json!("object-stream configurations (quick: header version 1.7 only) are run for programs without size/rotation/metadata deviation: quick = one page with an empty body or one of {Helvetica text, gray image, text annotation, outline entry}, or two pages with one Helvetica text each; thorough = one page with a body ≤ 2, two pages with bodies ≤ 1, three pages with equal bodies ≤ 1; reason: the writer numbers its object stream 1000000, every such file carries a 1 000 001-entry cross-reference section (20 MB as a table) and costs the library reader 0.3–3 s"));
     rep.note("writer_configurations", json!(Cfg::all().iter().map(|c| c.label()).collect::<Vec<_>>()));
 
     // development aid: C02_SECTIONS=single-page,two runs only the sections with these prefixes
